@@ -69,7 +69,16 @@ def detect(name, pids, tier="quick", seed=1):
         for pid in pids:
             t0 = time.time()
             env = dict(os.environ, VERIF_SEED=str(seed), VERIF_REPO=wt)
-            r = subprocess.run(["./check", pid, "--tier", tier], cwd="/verif", env=env, capture_output=True, text=True)
+            # VERIF_SNAP=1: run the checks from a snapshot of the *committed* /verif (so that edits in progress
+            # cannot break the build of a detection run)
+            vdir = "/verif"
+            if os.environ.get("VERIF_SNAP"):
+                vdir = f"/verif/.work/snap-{name}"
+                shutil.rmtree(vdir, ignore_errors=True); os.makedirs(vdir)
+                subprocess.run("git -C /verif archive HEAD | tar -x -C " + vdir, shell=True, check=True)
+            r = subprocess.run(["./check", pid, "--tier", tier], cwd=vdir, env=env, capture_output=True, text=True)
+            if vdir != "/verif":
+                shutil.rmtree(vdir, ignore_errors=True)
             first = [l for l in r.stdout.splitlines() if "VIOLATION" in l][:1]
             # evidence of this run describes the mutated tree: restore the committed file
             subprocess.run(["git", "-C", "/verif", "checkout", "--", f"evidence/{pid}.json"], capture_output=True)
